@@ -393,6 +393,12 @@ def features(node):
         t = n[0]
         if t == "backref":
             f.add("backref")
+        if t == "cls":
+            c = n
+            while c is not None:
+                if c[1]:
+                    f.add("negated_class")
+                c = c[3]
         if t == "grp":
             if n[1]:
                 f.add("capture")
@@ -424,6 +430,8 @@ def features(node):
                     f.add("rep_var_bounded")
                 if in_rep:
                     f.add("rep_var_nested")
+                    if n[2] == 0:
+                        f.add("rep_min0_nested")
             if in_rep:
                 f.add("rep_nested")
             go(body, True, in_alt)
@@ -434,6 +442,41 @@ def features(node):
 
     go(node, False, False)
     return f
+
+
+def enum_asts(size, atoms, quants, groups=True):
+    """all ASTs with exactly `size` nodes (atoms, unary quantifiers / groups, binary seq / alt)"""
+    memo = {}
+
+    def go(n):
+        if n in memo:
+            return memo[n]
+        out = []
+        if n == 1:
+            out = list(atoms)
+        else:
+            for b in go(n - 1):
+                if b[0] != "rep":
+                    for (mn, mx, sp, greedy) in quants:
+                        out.append(("rep", b, mn, mx, greedy, sp))
+                if groups and b[0] != "grp":
+                    out.append(("grp", False, b, 0))
+            for k in range(1, n - 1):
+                for x in go(k):
+                    for y in go(n - 1 - k):
+                        out.append(("seq", [x, y]))
+                        out.append(("alt", [x, y]))
+        memo[n] = out
+        return out
+    return go(size)
+
+
+def strings_upto(alphabet, n):
+    out = [""]
+    import itertools
+    for k in range(1, n + 1):
+        out += ["".join(t) for t in itertools.product(alphabet, repeat=k)]
+    return out
 
 
 def inputs_for(rnd, alphabet, extra="", n=3, maxlen=6):
